@@ -24,6 +24,20 @@ CHECKS.update({
          'Both peers of an ADNL channel are modelled for generated seed pairs (both id orders, equal ids) and both directions checked with the packet-layout facts; signatures verified positively by libsodium and negatively under every tamper kind; generated mnemonics validated against an independent statement of the rule and key derivation against an independent PBKDF2 derivation.',
          'Trusts libsodium (PyNaCl), hashlib/hmac, harness/ref/refkeys.py. mnemonic_new draws from os.urandom (drawn words saved in the failure detail).', '§6 C20'),
 })
+CHECKS.update({
+ 'C03': ('Hypothesis DAG generation x all 6 option sets x 3 entry points x 4 input forms + enumerated size-boundary DAGs; round-trip oracle against independent reference tree',
+         'Round-trip: every generated DAG (ordinary and exotic, shared sub-cells) is serialised by the library under each of the 6 valid option sets and parsed back through Cell/Slice/Builder entry points from bytes, hex (both cases) and base64; the result must have the hash and the deep structure of the independent reference tree it was built from. Boundary sub-check hits 255/256/257 cells, 254..257 payload bytes, depth-1023 chain/ladder (thorough: 65535..65537).',
+         'Trusts refcell.py for the expected structure/hash. Exploration of an infinite domain.', '§6 C03'),
+ 'C04': ('differential: library writer vs independent strict serialized_boc decoder, on generated DAGs x 6 option sets + size boundaries',
+         'Every emission is decoded by an independent strict implementation of crypto/tl/boc.tlb which checks magic, flag bits vs requested options, field widths, distinct-cell count, forward-only references, cumulative (doubled under cache bits) index, CRC-32C by a bitwise reference, reachability and absence of trailing bytes, and must yield the same DAG. Catches self-consistent but non-conforming writer/reader pairs that round-trips cannot.',
+         'Trusts harness/ref/refboc.py (transcribed from boc.tlb) and refcrc.py.', '§6 C04'),
+ 'C05': ('Hypothesis generation of foreign encodings through a reference encoder exposing every encoder freedom; exhaustive prefix/bit-flip/extension corruption families per encoding; one-directional byte-mutation fuzz',
+         'Positive: encodings produced by an independent encoder with random magic (3 kinds), size/off_bytes slack, index, cache bits, CRC, stored hashes on random cells, 1..4 roots and a random linear extension must parse to exactly the denoted roots. Negative: every proper prefix, 1..8 appended bytes, every single-bit flip of CRC-protected encodings (exhaustive up to 150 bytes), and dangling/backward/self reference rewrites (CRC recomputed or absent) must raise.',
+         'Trusts refboc.py/refcell.py. Rejection of other malformed inputs is not asserted (not in the statement).', '§6 C05'),
+ 'C19': ('operation-count budgets (sys.setprofile call counting inside pytoniq_core) on enumerated maximal-sharing DAGs and Hypothesis-generated adversarial inputs; per-case CPU ceiling as secondary signal',
+         'Deterministic operation counting replaces wall-clock: to_boc / from_boc / hashing of doubling ladders (height up to 200, thorough 1000), lattices and random DAGs must stay within linear bounds in n+e (measured constants ~7-10x below the bound); the BoC parser on encodings with inflated count fields and on random byte strings must stay within a bound linear in the input length. The statement\'s "fraction of a second" is replaced by these hardware-independent counts plus a 10 s CPU ceiling per case.',
+         'Counts Python-level calls inside the library only (C-level loops are covered by the CPU ceiling). Bounds are linear with generous constants: a quadratic regression is caught from ~100 cells on, an exponential one immediately.', '§6 C19'),
+})
 NOT_YET = {}
 
 def main():
